@@ -375,6 +375,8 @@ class IntroVisitorIndirect(ast.NodeVisitor):
         self._gctx = gctx
         self._function_var_names = set(function_var_names)
         self._store_names: Set[LocalVar] = {current_fun_name}
+        # The attribute nodes that are the callee of a call (handled by visit_Call)
+        self._call_heads: Set[int] = set()
         self._call_stack = call_stack
         # All the calls to a load and subsequent function calls, ordered
         self.results: List[Union[FunctionIndirectInteractions, DDSPath]] = []
@@ -392,6 +394,38 @@ class IntroVisitorIndirect(ast.NodeVisitor):
         )
         if fi_or_p is not None:
             self.results.append(fi_or_p)
+        self._call_heads.add(id(node.func))
+        self.generic_visit(node)
+
+    def visit_Attribute(self, node: ast.Attribute) -> Any:
+        # A function that is mentioned (not called) through a module: `map(mod.fun, xs)`.
+        # It is handled like a function mentioned by its name (see visit_Name).
+        names = _function_name(node)
+        dotted = LocalVar(".".join(names))
+        if (
+            id(node) not in self._call_heads
+            and isinstance(self._start_mod.__dict__.get(names[0]), ModuleType)
+            and LocalVar(names[0]) not in self._function_var_names
+            and dotted not in self._store_names
+        ):
+            self._store_names.add(dotted)
+            z = ObjectRetrieval.retrieve_object(
+                LocalDepPath(PurePosixPath("/".join(names))), self._start_mod, self._gctx
+            )
+            if isinstance(z, AuthorizedObject) and isinstance(
+                z.object_val, FunctionType
+            ):
+                call_node = ast.Call(func=node, args=[], keywords=[])
+                fi_or_p = InspectFunctionIndirect.inspect_call(
+                    call_node,
+                    self._gctx,
+                    self._start_mod,
+                    self._function_var_names,
+                    self._call_stack,
+                )
+                if fi_or_p is not None:
+                    self.results.append(fi_or_p)
+                return
         self.generic_visit(node)
 
     def visit_Assign(self, node: ast.Assign) -> Any:
